@@ -13,7 +13,7 @@ def main():
     cfg = gen_config()
     res = Result(PID)
     T = tier()
-    H, K = (3, 5) if T == "quick" else (4, 7)
+    H, K = (3, 5) if T == "quick" else (4, 6)     # K = 7: the longest histories had not finished after 60 min (3 workers busy, the rest idle)
     shapes = [s for h in range(0, H + 1) for s in trees.avl_shapes(h)]
     inst = [("step", s, op) for s in shapes for op in ("insert", "remove", "search") if not (s is None and op == "remove")]
     if T == "quick":        # removal needs the deepest shapes (successor several levels below the victim): all height-4 shapes, remove only
@@ -30,7 +30,7 @@ def main():
     res.assumptions = ["llsym executes the clang-14 -O0 + sroa,mem2reg IR of src/avl.c; validated each run against the native build on sampled paths",
                        "keys are 64-bit signed integers compared by a strict total order; nodes are 16-byte aligned"]
     res.stubs = ["cmp callback: Python hook returning the symbolic sign of key(a) - key(b) (C replay: cmp_key)"]
-    TB = 900 if T == "quick" else 6000
+    TB = 900 if T == "quick" else 3000
     e2.run_e2(res, cfg, ["avl.c"], inst, treecheck.builder, group="step", validate_every=7, time_budget=TB)
     e2.run_e2(res, cfg, ["avl.c"], hist, treecheck.builder, group="history", validate_every=5, time_budget=TB)
     e2.finish_coverage(res, must_cover=["a_avl_insert", "a_avl_remove", "a_avl_search", "a_avl_insert_adjust"],
